@@ -27,6 +27,11 @@ AllBehaviours == {"known", "unknown", "late", "garbage", "nonbinding", "nouser",
 Valid == {"known", "unknown", "late"}       \* "late": like "known", but the first frame is not written when connecting
 Ufrags == {"u1", "u9"}                 \* u1: the ufrag the application asks for; u9: nobody asked (yet)
 UfragOf(b) == IF b = "unknown" THEN "u9" ELSE "u1"
+\* the mux keeps one table per IP family; a packet conn is registered under (ufrag, family). Accepted connections arrive over
+\* IPv4 here; the IPv6 table only ever holds packet conns the application asked for. Key of (u, IPv6): the ufrag followed by "/6".
+WithV6 == TRUE
+K6(u) == u \o "/6"
+MKeys == Ufrags \cup (IF WithV6 THEN {K6(u) : u \in Ufrags} ELSE {})
 \* frames a client sends, by behaviour: frame 1 is the first frame, later ones are data packets
 NFrames(b) == IF b \in Valid THEN 1 + MaxLater ELSE IF b \in {"silent", "earlyclose"} THEN 0 ELSE 1
 Ids == 1..MaxPc
@@ -50,6 +55,7 @@ VARIABLES beh,       \* client -> behaviour
           tim,       \* alive-timer goroutine per packet conn: "none", "closing", "done"
           closers,   \* who is inside tcpPacketConn.Close: slot -> [ph, tgt, fst]
           rmS, clS, clTodo,
+          rmTodo,    \* RemoveConnByUfrag: the packet conns it has unlisted and still has to close (one after the other, outside m.mu)
           c2S,       \* a second Close call made while the first is under way: "idle", "want" (before m.mu.Lock()), "wait" (in wg.Wait()), "ret"
           handles,   \* packet conn ids returned by GetConnByUfrag, in call order
           delivered, \* id -> what the application has read from it: <<client, frame>> (frame 0: an error)
@@ -58,8 +64,8 @@ VARIABLES beh,       \* client -> behaviour
           gets, rms, adv, reps,
           races      \* environment actions so far that did not wait for the mux to become idle
 vars == <<beh, cst, sent, pipe, sclosed, rx, hc, hcT, hcP, rd, rdK, att, pcs, npc, map, mu, mclosed, lclosed, acc, wg,
-          wat, tim, closers, rmS, clS, clTodo, handles, delivered, seenClosed, stale, gets, rms, adv, reps, races, c2S>>
-\* everything but races and c2S
+          wat, tim, closers, rmS, clS, clTodo, handles, delivered, seenClosed, stale, gets, rms, adv, reps, races, c2S, rmTodo>>
+\* everything but races, c2S and rmTodo
 mvars == <<beh, cst, sent, pipe, sclosed, rx, hc, hcT, hcP, rd, rdK, att, pcs, npc, map, mu, mclosed, lclosed, acc, wg,
            wat, tim, closers, rmS, clS, clTodo, handles, delivered, seenClosed, stale, gets, rms, adv, reps>>
 cvars == <<beh, cst, sent, pipe, rx>>
@@ -71,11 +77,11 @@ Init ==
   /\ sclosed = [c \in Clients |-> FALSE] /\ rx = [c \in Clients |-> <<>>]
   /\ hc = [c \in Clients |-> "none"] /\ hcT = [c \in Clients |-> Off] /\ hcP = [c \in Clients |-> 0]
   /\ rd = [c \in Clients |-> "none"] /\ rdK = [c \in Clients |-> 0] /\ att = [c \in Clients |-> 0]
-  /\ pcs = [i \in Ids |-> NoPc] /\ npc = 0 /\ map = [u \in Ufrags |-> 0]
+  /\ pcs = [i \in Ids |-> NoPc] /\ npc = 0 /\ map = [u \in MKeys |-> 0]
   /\ mu = "free" /\ mclosed = FALSE /\ lclosed = FALSE /\ acc = "run" /\ wg = 1
   /\ wat = [i \in Ids |-> "none"] /\ tim = [i \in Ids |-> "none"]
   /\ closers = [s \in Slots |-> Idle]
-  /\ rmS = "idle" /\ clS = "idle" /\ clTodo = {} /\ c2S = "idle"
+  /\ rmS = "idle" /\ clS = "idle" /\ clTodo = {} /\ c2S = "idle" /\ rmTodo = {}
   /\ handles = <<>> /\ delivered = [i \in Ids |-> <<>>] /\ seenClosed = [i \in Ids |-> FALSE]
   /\ stale = FALSE /\ gets = 0 /\ rms = 0 /\ adv = 0 /\ reps = 0 /\ races = 0
 
@@ -215,7 +221,7 @@ TimerDone(i) == /\ tim[i] = "closing" /\ FinishClose(TSlot(i)) /\ tim' = [tim EX
 
 \* ---------------------------------------------------------------- the application
 \* GetConnByUfrag: existing (alive timer cleared) or new packet conn; error after Close
-Get(u) == /\ gets < MaxGet /\ mu = "free" /\ gets' = gets + 1
+Get(u) == /\ u \in MKeys /\ gets < MaxGet /\ mu = "free" /\ gets' = gets + 1
           /\ IF mclosed THEN UNCHANGED <<pcs, npc, map, wat, wg, handles>>
              ELSE IF map[u] # 0
                   THEN /\ pcs' = [pcs EXCEPT ![map[u]].prov = FALSE, ![map[u]].timer = Off]
@@ -239,17 +245,24 @@ Reply(i, c) == /\ Claimed(i) /\ reps < MaxReply /\ reps' = reps + 1
                               closers, rmS, clS, clTodo, handles, delivered, seenClosed, stale, gets, rms, adv>>
 \* RemoveConnByUfrag: unlist under m.mu, close outside
 RemoveBegin(u) == /\ rmS = "idle" /\ rms < MaxRm /\ mu = "free" /\ rms' = rms + 1
-                  /\ IF map[u] = 0 THEN UNCHANGED <<map, pcs, sclosed, closers, rmS>>
-                     ELSE map' = [map EXCEPT ![u] = 0] /\ StartClose("rm", map[u]) /\ rmS' = "closing"
-                  /\ UNCHANGED <<cvars, hc, hcT, hcP, rd, rdK, att, npc, mu, mclosed, lclosed, acc, wg, wat, tim,
-                                 clS, clTodo, handles, delivered, seenClosed, stale, gets, adv, reps>>
-RemoveEnd == /\ rmS = "closing" /\ FinishClose("rm") /\ rmS' = "idle"
-             /\ UNCHANGED <<cvars, sclosed, hc, hcT, hcP, rd, rdK, att, npc, map, mu, mclosed, lclosed, acc, wg, wat, tim,
-                            clS, clTodo, handles, delivered, seenClosed, stale, gets, rms, adv, reps>>
+                  /\ LET ks == {u, K6(u)} \cap MKeys  ids == {map[k] : k \in ks} \ {0} IN
+                       /\ map' = [k \in MKeys |-> IF k \in ks THEN 0 ELSE map[k]]
+                       /\ rmTodo' = ids /\ rmS' = IF ids = {} THEN "idle" ELSE "closing"
+                  /\ UNCHANGED <<cvars, sclosed, hc, hcT, hcP, rd, rdK, att, pcs, npc, mu, mclosed, lclosed, acc, wg, wat, tim,
+                                 closers, clS, clTodo, handles, delivered, seenClosed, stale, gets, adv, reps>>
+RemovePick(i) == /\ rmS = "closing" /\ i \in rmTodo /\ closers["rm"].ph = "idle" /\ StartClose("rm", i) /\ rmTodo' = rmTodo \ {i}
+                 /\ UNCHANGED <<cvars, hc, hcT, hcP, rd, rdK, att, npc, map, mu, mclosed, lclosed, acc, wg, wat, tim,
+                                rmS, clS, clTodo, handles, delivered, seenClosed, stale, gets, rms, adv, reps>>
+RemovePcDone == /\ rmS = "closing" /\ FinishClose("rm") /\ UNCHANGED rmTodo
+                /\ UNCHANGED <<cvars, sclosed, hc, hcT, hcP, rd, rdK, att, npc, map, mu, mclosed, lclosed, acc, wg, wat, tim,
+                               rmS, clS, clTodo, handles, delivered, seenClosed, stale, gets, rms, adv, reps>>
+RemoveEnd == /\ rmS = "closing" /\ rmTodo = {} /\ closers["rm"].ph = "idle" /\ rmS' = "idle" /\ UNCHANGED rmTodo
+             /\ UNCHANGED <<cvars, sclosed, hc, hcT, hcP, rd, rdK, att, pcs, npc, map, mu, mclosed, lclosed, acc, wg, wat, tim,
+                            closers, clS, clTodo, handles, delivered, seenClosed, stale, gets, rms, adv, reps>>
 \* Close: under m.mu close every listed packet conn (each Close waits for its readers), reset the maps, close the
 \* listener; then wait for the WaitGroup
 CloseLock == /\ clS = "idle" /\ mu = "free" /\ mu' = "cl" /\ mclosed' = TRUE /\ clS' = "pcs"
-             /\ clTodo' = {map[u] : u \in Ufrags} \ {0}
+             /\ clTodo' = {map[u] : u \in MKeys} \ {0}
              /\ UNCHANGED <<cvars, sclosed, hc, hcT, hcP, rd, rdK, att, pcs, npc, map, lclosed, acc, wg, wat, tim,
                             closers, rmS, handles, delivered, seenClosed, stale, gets, rms, adv, reps>>
 InSweep == clS = "pcs" \/ c2S = "pcs"
@@ -260,7 +273,7 @@ ClosePcDone == /\ InSweep /\ FinishClose("cl")
                /\ UNCHANGED <<cvars, sclosed, hc, hcT, hcP, rd, rdK, att, npc, map, mu, mclosed, lclosed, acc, wg, wat, tim,
                               rmS, clS, clTodo, handles, delivered, seenClosed, stale, gets, rms, adv, reps>>
 CloseUnlock == /\ clS = "pcs" /\ clTodo = {} /\ closers["cl"].ph = "idle"
-               /\ map' = [u \in Ufrags |-> 0] /\ lclosed' = TRUE /\ mu' = "free" /\ clS' = "wait"
+               /\ map' = [u \in MKeys |-> 0] /\ lclosed' = TRUE /\ mu' = "free" /\ clS' = "wait"
                /\ UNCHANGED <<cvars, sclosed, hc, hcT, hcP, rd, rdK, att, pcs, npc, mclosed, acc, wg, wat, tim,
                               closers, rmS, clTodo, handles, delivered, seenClosed, stale, gets, rms, adv, reps>>
 CloseRet == /\ clS = "wait" /\ wg = 0 /\ clS' = "ret"
@@ -275,11 +288,11 @@ CloseRet == /\ clS = "wait" /\ wg = 0 /\ clS' = "ret"
 \* goroutine has ended. The sweep state (clTodo, closer slot "cl") is shared: m.mu admits one sweep at a time.
 Close2Begin == clS # "idle" /\ c2S = "idle" /\ c2S' = "want" /\ UNCHANGED mvars
 Close2Lock == /\ c2S = "want" /\ mu = "free" /\ mclosed /\ mu' = "cl" /\ c2S' = "pcs"
-              /\ clTodo' = {map[u] : u \in Ufrags} \ {0}
+              /\ clTodo' = {map[u] : u \in MKeys} \ {0}
               /\ UNCHANGED <<cvars, sclosed, hc, hcT, hcP, rd, rdK, att, pcs, npc, map, mclosed, lclosed, acc, wg, wat, tim,
                              closers, rmS, clS, handles, delivered, seenClosed, stale, gets, rms, adv, reps>>
 Close2Unlock == /\ c2S = "pcs" /\ clTodo = {} /\ closers["cl"].ph = "idle"
-                /\ map' = [u \in Ufrags |-> 0] /\ mu' = "free" /\ c2S' = "wait"
+                /\ map' = [u \in MKeys |-> 0] /\ mu' = "free" /\ c2S' = "wait"
                 /\ UNCHANGED <<cvars, sclosed, hc, hcT, hcP, rd, rdK, att, pcs, npc, mclosed, lclosed, acc, wg, wat, tim,
                                closers, rmS, clS, clTodo, handles, delivered, seenClosed, stale, gets, rms, adv, reps>>
 Close2Ret == c2S = "wait" /\ wg = 0 /\ c2S' = "ret" /\ UNCHANGED mvars
@@ -298,11 +311,13 @@ Advance == /\ adv < MaxAdv /\ ~TimerDue /\ adv' = adv + 1
 Internal0 == \/ AcceptExit
             \/ \E c \in Clients : HcRead(c) \/ HcFail(c) \/ HcLookup(c) \/ HcAdd(c) \/ RdFirst(c) \/ RdRead(c) \/ RdPush(c)
             \/ \E i \in Ids : WatWake(i) \/ WatRemove(i) \/ WatDone(i) \/ TimerFire(i) \/ TimerDone(i) \/ AppRead(i) \/ ClosePick(i)
-            \/ RemoveEnd \/ ClosePcDone \/ CloseUnlock \/ CloseRet
-Internal == (Internal0 /\ UNCHANGED c2S) \/ ((Close2Lock \/ Close2Unlock \/ Close2Ret) /\ UNCHANGED races)
+            \/ ClosePcDone \/ CloseUnlock \/ CloseRet
+Internal == \/ Internal0 /\ UNCHANGED <<c2S, rmTodo>>
+            \/ (Close2Lock \/ Close2Unlock \/ Close2Ret) /\ UNCHANGED <<races, rmTodo>>
+            \/ ((\E i \in Ids : RemovePick(i)) \/ RemovePcDone \/ RemoveEnd) /\ UNCHANGED <<races, c2S>>
 \* what the environment (clients, application, clock) starts
 External == \/ \E c \in Clients : Dial(c) \/ ClientSend(c) \/ ClientClose(c)
-            \/ \E u \in Ufrags : Get(u) \/ RemoveBegin(u)
+            \/ (\E u \in MKeys : Get(u)) \/ (\E u \in Ufrags : RemoveBegin(u))
             \/ \E i \in Ids, c \in Clients : Reply(i, c)
             \/ CloseLock \/ Advance
 \* The environment mostly acts when the mux is idle (that is how the replay harness works: it waits for quiescence
@@ -324,7 +339,7 @@ Busy == \/ acc = "run" /\ lclosed
               \/ tim[i] = "closing" /\ CanFinish(TSlot(i))
               \/ Claimed(i) /\ ~seenClosed[i] /\ (pcs[i].q # <<>> \/ pcs[i].rclosed)
               \/ InSweep /\ i \in clTodo /\ closers["cl"].ph = "idle"
-        \/ rmS = "closing" /\ CanFinish("rm")
+        \/ rmS = "closing" /\ (CanFinish("rm") \/ closers["rm"].ph = "idle")
         \/ InSweep /\ (CanFinish("cl") \/ (clTodo = {} /\ closers["cl"].ph = "idle"))
         \/ clS = "wait" /\ wg = 0
         \/ c2S = "want" /\ mu = "free" /\ mclosed
@@ -336,8 +351,8 @@ Ext == Cardinality({c \in Clients : cst[c] # "idle"}) + Cardinality({c \in Clien
        + gets + rms + adv + reps + (IF clS = "idle" THEN 0 ELSE 1) + (IF c2S = "idle" THEN 0 ELSE 1)
        + Cardinality({c \in Clients : sent[c] > 1}) + Cardinality({c \in Clients : sent[c] > 0 /\ beh[c] = "late"})
 EnvOK0 == /\ Ext < MaxExt /\ (Quiet \/ races < MaxRaces) /\ races' = (IF Quiet THEN races ELSE races + 1)
-EnvOK == EnvOK0 /\ UNCHANGED c2S
-MuxOK == UNCHANGED <<races, c2S>>
+EnvOK == EnvOK0 /\ UNCHANGED <<c2S, rmTodo>>
+MuxOK == UNCHANGED <<races, c2S, rmTodo>>
 \* one named step per action, so that TLC's traces and coverage name them
 SAcceptExit == AcceptExit /\ MuxOK
 SHcRead(c) == HcRead(c) /\ MuxOK
@@ -354,28 +369,30 @@ STimerFire(i) == TimerFire(i) /\ MuxOK
 STimerDone(i) == TimerDone(i) /\ MuxOK
 SAppRead(i) == AppRead(i) /\ MuxOK
 SClosePick(i) == ClosePick(i) /\ MuxOK
-SRemoveEnd == RemoveEnd /\ MuxOK
+SRemoveEnd == RemoveEnd /\ UNCHANGED <<races, c2S>>
+SRemovePick(i) == RemovePick(i) /\ UNCHANGED <<races, c2S>>
+SRemovePcDone == RemovePcDone /\ UNCHANGED <<races, c2S>>
 SClosePcDone == ClosePcDone /\ MuxOK
 SCloseUnlock == CloseUnlock /\ MuxOK
 SCloseRet == CloseRet /\ MuxOK
-SClose2Lock == Close2Lock /\ UNCHANGED races
-SClose2Unlock == Close2Unlock /\ UNCHANGED races
-SClose2Ret == Close2Ret /\ UNCHANGED races
+SClose2Lock == Close2Lock /\ UNCHANGED <<races, rmTodo>>
+SClose2Unlock == Close2Unlock /\ UNCHANGED <<races, rmTodo>>
+SClose2Ret == Close2Ret /\ UNCHANGED <<races, rmTodo>>
 EDial(c) == Dial(c) /\ EnvOK
 EClientSend(c) == ClientSend(c) /\ EnvOK
 EClientClose(c) == ClientClose(c) /\ EnvOK
 EGet(u) == Get(u) /\ EnvOK
-ERemove(u) == RemoveBegin(u) /\ EnvOK
+ERemove(u) == RemoveBegin(u) /\ EnvOK0 /\ UNCHANGED c2S
 EReply(i, c) == Reply(i, c) /\ EnvOK
 EClose == CloseLock /\ EnvOK
-EClose2 == Close2Begin /\ EnvOK0
+EClose2 == Close2Begin /\ EnvOK0 /\ UNCHANGED rmTodo
 EAdvance == Advance /\ EnvOK
-MuxStep == \/ SAcceptExit \/ SRemoveEnd \/ SClosePcDone \/ SCloseUnlock \/ SCloseRet \/ SClose2Lock \/ SClose2Unlock \/ SClose2Ret
+MuxStep == \/ SAcceptExit \/ SRemoveEnd \/ SRemovePcDone \/ (\E i \in Ids : SRemovePick(i)) \/ SClosePcDone \/ SCloseUnlock \/ SCloseRet \/ SClose2Lock \/ SClose2Unlock \/ SClose2Ret
            \/ \E c \in Clients : SHcRead(c) \/ SHcFail(c) \/ SHcLookup(c) \/ SHcAdd(c) \/ SRdFirst(c) \/ SRdRead(c) \/ SRdPush(c)
            \/ \E i \in Ids : SWatWake(i) \/ SWatRemove(i) \/ SWatDone(i) \/ STimerFire(i) \/ STimerDone(i) \/ SAppRead(i) \/ SClosePick(i)
 EnvStep == \/ EClose \/ EClose2 \/ EAdvance
            \/ \E c \in Clients : EDial(c) \/ EClientSend(c) \/ EClientClose(c)
-           \/ \E u \in Ufrags : EGet(u) \/ ERemove(u)
+           \/ (\E u \in MKeys : EGet(u)) \/ (\E u \in Ufrags : ERemove(u))
            \/ \E i \in Ids, c \in Clients : EReply(i, c)
 Next == MuxStep \/ EnvStep
 Spec == Init /\ [][Next]_vars
